@@ -58,7 +58,8 @@ package dir
 //@   requires dirReady(dip, op) && dip.Kind == 2
 //@   preserves [allocInv] allocInv() @C15 @C04
 //@   allocates buf.Buf, marshal.Enc, marshal.Dec, cell:uint64, []uint8, dir.dirEnt
-//@   modifies dip.blks[*], dirtyinum, wroteinum, abits, op.Atxn.allocBnums, []uint64@alloctxn.AllocTxn.allocBnums, []uint8@buf.Buf.Data, buf.Buf.dirty
+//@   modifies dip.blks[*], dirtyinum, wroteinum, abits, op.Atxn.allocBnums, []uint64@alloctxn.AllocTxn.allocBnums, []uint8@buf.Buf.Data, buf.Buf.dirty, emptychecked
+//@   ghostexit emptychecked = store(emptychecked, dip.Inum, result)
 //@   ensures [ibits-same] abits[theIalloc] == old(abits)[theIalloc] @C05
 //@   ensures dirDone(dip, op) && dip.Size == old(dip.Size) && dip.Kind == 2
 //@   assumes [S3-empty] result ==> (forall n string :: dnames[dip.Inum][n] != 0 ==> (len(n) == 1 && n[0] == 46) || (len(n) == 2 && n[0] == 46 && n[1] == 46))
